@@ -2,6 +2,19 @@ package main
 
 // propRules: which rules decide which property.
 var propRules = map[string][]ruleSpec{
+	"C05": {
+		{"R11", "Conv geometry: loop/coordinate pairing (K2,K3), index kinds (K1), auto_pad (K4)", ruleR11},
+		{"R6", "float32/float64 admitted (T8)", ruleR6},
+		{"R3", "operands (bias!) not modified (E2)", ruleR3},
+		{"R21", "attribute state read-only after Init", ruleR21},
+	},
+	"C04": {
+		{"R16", "dependency shape of Gemm / Scaler / LinearRegressor / MatMul", ruleR16},
+		{"R10", "Repeat only as a guarded stretch (MatMul batch broadcasting)", ruleR10},
+		{"R6", "float32 admitted (T8)", ruleR6},
+		{"R3", "operands and attribute tensors not modified (E2)", ruleR3},
+		{"R21", "attribute state read-only after Init", ruleR21},
+	},
 	"C03": {
 		{"R7", "operator -> kernel table, operand order, multidirectional mode, boolean truth tables", ruleR7Binary},
 		{"R6", "required dtypes admitted (T8)", ruleR6},
